@@ -18,7 +18,6 @@ use domain::rdata::{Dnskey, Rrsig};
 use serde_json::{json, Value};
 use verif_harness::common::run_cases;
 
-type SRrsig = Rrsig<Bytes, SName>;
 
 fn ts(v: &Value) -> Timestamp {
     let b = bytes_of(v);
@@ -130,7 +129,12 @@ fn rrsig_case(input: &Value, reals: &[RealKey]) -> Value {
         return json!({"rrsig_rr_header_wrong": true});
     }
     let tag_changed = input["sig"]["tag"] != input["sig0"]["tag"];
+    let conv = input["conv"].as_str().unwrap_or("none");
     let rsig = altered_rrsig(ra.data(), input, tag_changed, false);
+    let (cur, rsig) = match convert(conv, &cur, &rsig) {
+        Ok(x) => x,
+        Err(e) => return json!({"conversion_changed_value": e}),
+    };
     let mut vbuf: Vec<u8> = vec![];
     if rsig.signed_data(&mut vbuf, &mut cur.clone()[..]).is_err() {
         return json!({"signed_data_error": true});
@@ -160,6 +164,14 @@ fn rrsig_case(input: &Value, reals: &[RealKey]) -> Value {
             }
         }
         let asig = altered_rrsig(sa.data(), input, tag_changed, input["sigflip"] == true);
+        let asig = match convert(conv, &cur, &asig) {
+            Ok(x) => x.1,
+            Err(e) => return json!({"conversion_changed_value": e}),
+        };
+        let dnskey = match convert_dnskey(conv, &dnskey) {
+            Ok(k) => k,
+            Err(e) => return json!({"conversion_changed_value": e}),
+        };
         let mut b: Vec<u8> = vec![];
         if asig.signed_data(&mut b, &mut cur.clone()[..]).is_err() {
             return json!({"signed_data_error": true});
@@ -243,6 +255,35 @@ fn signer_case(input: &Value, reals: &[RealKey]) -> Value {
     json!({"steps": steps})
 }
 
+/// A published verification vector: the model supplies the signed octets,
+/// the library must rebuild the same and judge the published signature.
+fn vector_case(input: &Value) -> Value {
+    let key = RecKey::of_json(&input["key"]).dnskey;
+    let mut recs = match records_of(&input["rrs"]) {
+        Ok(r) => r,
+        Err(e) => return json!({"bad_rrs": e}),
+    };
+    let s = &input["sig"];
+    let rrsig: SRrsig = Rrsig::new(
+        rtype(s["tc"].as_u64().unwrap() as u16),
+        SecurityAlgorithm::from_int(s["alg"].as_u64().unwrap() as u8),
+        s["labels"].as_u64().unwrap() as u8,
+        ttl(s["ottl"].as_u64().unwrap() as u32),
+        ts(&s["exp"]),
+        ts(&s["inc"]),
+        s["tag"].as_u64().unwrap() as u16,
+        name_of(&s["signer"]),
+        Bytes::from(bytes_of(&input["signature"])),
+    )
+    .expect("rrsig");
+    let mut b: Vec<u8> = vec![];
+    if rrsig.signed_data(&mut b, &mut recs[..]).is_err() {
+        return json!({"signed_data_error": true});
+    }
+    let model = bytes_of(&input["data"]);
+    json!({"data_ok": b == model, "verify": rrsig.verify_signed_data(&key, &model).is_ok()})
+}
+
 fn keytag_case(input: &Value) -> Value {
     let k = RecKey::of_json(&input["key"]);
     json!({"tag": k.dnskey.key_tag()})
@@ -271,11 +312,13 @@ fn main() {
     run_cases(|input| match input["kind"].as_str() {
         Some("rrsig") => rrsig_case(input, &reals),
         Some("signer") => signer_case(input, &reals),
+        Some("vector") => vector_case(input),
         Some("keytag") => keytag_case(input),
         Some("ds") => ds_case(input),
         Some("nsec") => denial::nsec_case(input),
         Some("nsec3") => denial::nsec3_case(input),
         Some("bitmap") => denial::bitmap_case(input),
+        Some("zonebuild") => denial::zonebuild_case(input),
         _ => json!({"bad_case": true}),
     });
 }
